@@ -264,6 +264,8 @@ def _all(interp, args, kwargs):
 def _any(interp, args, kwargs):
     items = interp.iterate(args[0])
     if items is None:
+        if isinstance(args[0], VList) and CTX.mode == "sym":
+            return SBool(z3.Bool(CTX.fresh_name("any_unknown")))   # over-approximation: unknown
         raise OutOfSubset("any() over symbolic-length iterable")
     for x in items:
         if interp.truthy(x):
@@ -708,6 +710,8 @@ def host_getattr(interp, v, name):
             return HostFn(get, "environ.get", raw=True)
     if isinstance(v, Opaque):
         return Opaque(v.label + "." + name)
+    if isinstance(v, SRef) and CTX.ghost.get("sref_getattr") is not None:
+        return CTX.ghost["sref_getattr"](v, name)
     if isinstance(v, HostFn) and name == "__name__":
         return v.name
     if isinstance(v, FuncVal) and name == "__name__":
